@@ -201,7 +201,9 @@ class Shadow:
                 self.ran[k] = e
                 self.flag.discard(k)
                 self.uncertain.discard(k)
-                self.orderonly[k] = set(rules.get(k, {}).get("follow", []))
+                rr = rules.get(k, {})
+                other = set(rr.get("req", [])) | set(rr.get("single", [])) | set(rr.get("disc", [])) | (set(rr["br"][1]) | set(rr["br"][2]) if rr.get("br") else set())
+                self.orderonly[k] = set(rr.get("follow", [])) - other       # keys recorded ONLY as order-only
                 if aborted:
                     self.uncertain.add(k)
             else:
